@@ -9,6 +9,7 @@ import (
 	"math/rand"
 	"os"
 	"os/exec"
+	"path/filepath"
 	"syscall"
 	"time"
 
@@ -226,6 +227,35 @@ func replayStore(args []string) error {
 		}
 		if idx != nil {
 			watchdog(2*time.Second, func() error { return idx.Close() })
+			idx = nil
+		}
+		// what a path was earlier does not matter: once a complete index is there (a batch job finished, a copy
+		// completed), opening it in the same process succeeds -- UpdogStore's outcome is a function of the file's parts
+		if !ln.File.Exists || ln.File.S != "ok" || !ln.File.Bucket {
+			os.Remove(path)
+			os.MkdirAll(filepath.Dir(path), 0o755)
+			later := []vx.Row{{{1, 1}}, {{1, 2}, {2, 1}}}
+			w2, werr := vx.NewWriter("mem", path)
+			if werr == nil {
+				for _, r := range later {
+					w2.AddRow(dict.RowMap(r))
+				}
+				werr = w2.Flush()
+			}
+			if werr == nil {
+				rep.Steps++
+				var got *updog.Index
+				o, oerr := watchdog(15*time.Second, func() error {
+					i, err := vx.Open(path, "ondemand", "none", 0)
+					got = i
+					return err
+				})
+				if o != "ok" {
+					rep.Mismatch(map[string]any{"kind": "store-later-valid-index-refused", "file": ln.File, "steps": ln.Steps, "got": o, "err": fmt.Sprint(oerr)})
+				} else {
+					watchdog(5*time.Second, func() error { return got.Close() })
+				}
+			}
 		}
 		if len(rep.Samples) < 3 && n%97 == 3 {
 			rep.Samples = append(rep.Samples, ln)
@@ -589,6 +619,101 @@ func killRuns(w *vx.NDWriter, rng *rand.Rand, dir, bin string, kills int) error 
 			if crashHangs >= 3 {
 				return nil
 			}
+		}
+	}
+	return wideKillRuns(w, rng, dir, bin, 1+kills/4)
+}
+
+// wideKillRuns: `updog create --big` on a CSV with several million (row, column) entries but few distinct values,
+// SIGKILLed at the first moment the output file changes after its creation (the first commit into the output) and at
+// a few instants of the insertion phase.
+func wideKillRuns(w *vx.NDWriter, rng *rand.Rand, dir, bin string, kills int) error {
+	const nrows, ncols = 330000, 8
+	csvPath := vx.Join(dir, "wide.csv")
+	var buf bytes.Buffer
+	buf.WriteString("ca,cb,cc,cd,ce,cf,cg,ch\n") // letters only: `updog create` turns every other character into '_'
+	seenPairs := map[[2]int]bool{}
+	vals := vx.PickSorted(rng, nil, 30, func(i int) string { return "w" + padInt(i) })
+	cols := []string{"ca", "cb", "cc", "cd", "ce", "cf", "cg", "ch"}
+	d := vx.NewDict(cols, vals)
+	for i := 0; i < nrows; i++ {
+		for k := 0; k < ncols; k++ {
+			if k > 0 {
+				buf.WriteByte(',')
+			}
+			v := 1 + (i*(k+3))%(5+3*k)
+			seenPairs[[2]int{k, v}] = true
+			buf.WriteString(d.Val(v))
+		}
+		buf.WriteByte('\n')
+	}
+	nvals := len(seenPairs)
+	if err := os.WriteFile(csvPath, buf.Bytes(), 0644); err != nil {
+		return err
+	}
+	defer os.Remove(csvPath)
+	ref := vx.Join(dir, "wide_ref.updog")
+	if o, err := exec.Command(bin, "create", "-o", ref, csvPath).CombinedOutput(); err != nil {
+		return fmt.Errorf("updog create (wide) failed: %v %s", err, o)
+	}
+	defer os.Remove(ref)
+	ps := &probeSet{d: d}
+	for k := 0; k < ncols; k++ {
+		for v := 1; v <= 5+3*k; v += 2 {
+			l := &vx.Expr{Op: "eq", Col: k + 1, Val: v}
+			ps.qs = append(ps.qs, vx.Query{E: l}, vx.Query{E: &vx.Expr{Op: "not", E: l}})
+		}
+	}
+	idx, err := vx.Open(ref, "ondemand", "none", 0)
+	if err != nil {
+		return err
+	}
+	ps.ref, ps.sch = ps.run(idx)
+	idx.Close()
+	for k := 0; k < kills; k++ {
+		outp := vx.Join(dir, fmt.Sprintf("widekill_%d.updog", k))
+		cmd := exec.Command(bin, "create", "-b", "-o", outp, csvPath)
+		cmd.Env = append(os.Environ(), "TMPDIR="+dir)
+		if err := cmd.Start(); err != nil {
+			return err
+		}
+		done := make(chan struct{})
+		go func() { cmd.Wait(); close(done) }()
+		if k%3 == 2 {
+			time.Sleep(time.Duration(50+rng.Intn(400)) * time.Millisecond) // somewhere in the insertion phase
+		} else {
+			// wait for the output to exist, remember what it looks like, kill at its first change
+			var first os.FileInfo
+			deadline := time.Now().Add(60 * time.Second)
+		poll:
+			for time.Now().Before(deadline) {
+				select {
+				case <-done:
+					break poll
+				default:
+				}
+				st, err := os.Stat(outp)
+				if err == nil {
+					if first == nil {
+						first = st
+					} else if st.Size() != first.Size() || !st.ModTime().Equal(first.ModTime()) {
+						if k%3 == 1 {
+							time.Sleep(time.Duration(rng.Intn(40)) * time.Millisecond) // a little later: between two output commits, if there are several
+						}
+						break poll
+					}
+				}
+				time.Sleep(50 * time.Microsecond)
+			}
+		}
+		cmd.Process.Signal(syscall.SIGKILL)
+		<-done
+		w.Emit(map[string]any{"ev": "Begin", "kind": "cli", "big": true, "total": nvals, "batch": 1000, "rows": nrows, "delay_ms": 0, "occupied": false})
+		w.Emit(project(outp).event("Kill"))
+		w.Emit(crashOpen(outp, ps))
+		os.Remove(outp)
+		if crashHangs >= 3 {
+			return nil
 		}
 	}
 	return nil
